@@ -76,7 +76,7 @@ def run(tier, seed, replay=None):
         ck.prove(["Props/C05.vo", "Run/Eval_L1.vo"])
         up4_leg(ck, tier, seed, replay_case=rp)
         return ck.finish()
-    ck, _ = run_prop("C05", tier, seed, replay, 500, 6000, rule=rule)
+    ck, _ = run_prop("C05", tier, seed, replay, 500, 6000, rule=rule, fixed=l1.pool_scenarios)
     if isinstance(ck, int):
         return ck
     ck.trusted = L1_TRUSTED + UP4_TRUSTED
